@@ -211,6 +211,7 @@ type Conn struct {
 	encryptedPackets []addrPkt
 
 	connectionClosedByUser bool
+	closeNotifySent        atomic.Bool
 	closeLock              sync.Mutex
 	closed                 *closer.Closer
 
@@ -2369,6 +2370,11 @@ func (c *Conn) recvHandshake() <-chan dtlshandshake.RecvHandshakeState {
 }
 
 func (c *Conn) notify(ctx context.Context, level alert.Level, desc alert.Description) error {
+	// close_notify goes out at most once, whether it answers the peer's or
+	// announces a Close of this side, and whichever of the two comes first.
+	if desc == alert.CloseNotify && c.closeNotifySent.Swap(true) {
+		return nil
+	}
 	common := dtlsstate.CommonState(c.state)
 	if level == alert.Fatal && len(common.SessionID) > 0 { //nolint:nestif
 		if common.LocalVersion == protocol.Version1_2 {
